@@ -55,6 +55,8 @@ type RIdent struct {
 	Addr   int  `json:"a"`                // local address pool index, -1 wildcard (real); raw: pool index
 	Port   int  `json:"p"`
 	Conn   bool `json:"conn,omitempty"` // real: Connect after Bind
+	CNIC   int  `json:"cnic,omitempty"` // real: interface id passed to Connect (0: none)
+	Mapped bool `json:"mapped,omitempty"` // real IPv6 socket: connect to the IPv4-mapped form of an IPv4 peer
 	RAddr  int  `json:"ra"`
 	RPort  int  `json:"rp"`
 	Shape  int  `json:"shape,omitempty"` // raw
@@ -281,18 +283,27 @@ func (r *raceRun) openReal(d RIdent, stable bool) *inst {
 	if d.Conn {
 		runtime.Gosched()
 		k := mod(d.RAddr, 2)
-		if d.V6 {
+		if d.V6 && !d.Mapped {
 			k += 2
 		}
+		peer := raddrs[k] // as it appears in packets
+		arg := peer
+		if d.V6 && d.Mapped {
+			arg = tcpip.Address("\x00\x00\x00\x00\x00\x00\x00\x00\x00\x00\xff\xff") + peer
+		}
+		cnic := mod(d.CNIC, 3)
+		if cnic > r.w.nics {
+			cnic = 0
+		}
 		t2 := r.tick()
-		e := so.EP.Connect(tcpip.FullAddress{Addr: raddrs[k], Port: rports[mod(d.RPort, len(rports))]})
+		e := so.EP.Connect(tcpip.FullAddress{NIC: tcpip.NICID(cnic), Addr: arg, Port: rports[mod(d.RPort, len(rports))]})
 		t3 := r.tick()
 		id2, ie := identOf(transUDP, so, d.V6, d.V6 && d.V6Only)
 		if e != nil && !stable {
 			// a refused Connect may have held the connected identity for a moment
 			for _, l := range laddrs[:nAssignable] {
-				if isV6(l.A) == d.V6 && (id.LA == "" || id.LA == l.A) {
-					att := ident{Trans: transUDP, Nets: net4 | net6, LA: l.A, LP: id.LP, RA: raddrs[k], RP: rports[mod(d.RPort, len(rports))]}
+				if isV6(l.A) == isV6(peer) && (id.LA == "" || id.LA == l.A) {
+					att := ident{Trans: transUDP, NIC: cnic, Nets: net4 | net6, LA: l.A, LP: id.LP, RA: peer, RP: rports[mod(d.RPort, len(rports))]}
 					in.phases = append(in.phases, phase{id: att, posFrom: t2, posTo: t3, defFrom: inf, defTo: -1})
 				}
 			}
@@ -440,8 +451,10 @@ func runRace(c RaceCase) *evid.Failure {
 					}
 				}
 				if d.Mut&1 == 0 {
-					if t.Real && t.Addr >= 0 {
+					if t.Real && t.Addr >= 0 && !(t.V6 && t.Mapped) {
 						dst = laddrs[mod(t.Addr, nAssignable)].A
+					} else if t.Real && t.V6 && t.Mapped {
+						dst = laddrs[mod(d.Addr, 3)].A
 					} else if s := mod(t.Shape, 4); !t.Real && (s == 0 || s == 2) {
 						dst = laddrs[mod(t.Addr, len(laddrs))].A
 					}
@@ -737,7 +750,11 @@ func genRIdent(rt *rapid.T, real bool) RIdent {
 				d.Addr = rapid.SampledFrom([]int{0, 0, 1, 2}).Draw(rt, "addr")
 			}
 		}
-		d.Conn = pick("conn", 3) == 0
+		d.Conn = pick("conn", 2) == 0
+		if d.Conn {
+			d.CNIC = rapid.SampledFrom([]int{0, 0, 0, 1, 1, 2}).Draw(rt, "cnic")
+			d.Mapped = d.V6 && !d.V6Only && pick("mapped", 2) == 0
+		}
 		return d
 	}
 	d.Trans = rapid.SampledFrom([]int{transUDP, transUDP, transTCP}).Draw(rt, "trans")
